@@ -1,12 +1,13 @@
 #!/bin/bash
-# MANIFEST.setup_cmd: offline build + self-test of the framework.
+# MANIFEST.setup_cmd: offline build + self-test of the framework (no network, files on disk only).
 set -e
 cd "$(dirname "$0")"
 export CARGO_NET_OFFLINE=true
 T=${VERIF_SCRATCH:-/var/tmp}/coapv.setup.$$
 trap 'rm -rf "$T"' EXIT
-# differential test of the container model against std
-( cd engine/verif_alloc && cargo test --offline --target-dir "$T/valloc" -q )
-python3 -c "import json;json.load(open('MANIFEST.json'))"
+# differential test of the container models (heap list and inline list) against std
+( cd engine/verif_alloc && cargo test --offline --target-dir "$T/valloc" -q && cargo test --offline --features inline_list --target-dir "$T/valloc" -q )
+python3 -c "import json;json.load(open('MANIFEST.json'));json.load(open('known_findings.json'))"
 ./check --list > /dev/null
+mkdir -p evidence replays logs
 echo "setup ok"
